@@ -79,13 +79,23 @@ impl Check for C18 {
             anchor_r + el + el * ppm_k / (1024 * 1_000_000)
         };
         let n = ch.range(S_WORK, 1, 50);
+        // per-run operation mix: balanced, long idle stretches (holdover: many large advances between
+        // adjustments, up to 49 x 10^4 s), or adjustment-heavy
+        let profile = ch.choose(S_CFG, 4);
+        let weights: [u64; 3] = match profile {
+            2 => [30, 1, 1],
+            3 => [2, 5, 5],
+            _ => [4, 3, 3],
+        };
+        let mut longest_idle: u128 = 0;
+        let mut idle: u128 = 0;
         let mut hist: Vec<String> = Vec::new();
         let mut viol: Vec<(String, String, String)> = Vec::new();
         let mut checks = 0u64;
         let r = guarded(|| {
             for i in 0..n {
                 time.seq.set(i);
-                let op = ch.weighted(S_WORK, &[4, 3, 3]);
+                let op = ch.weighted(S_WORK, &weights);
                 let u = underlying(&time);
                 let r0 = ov.now() as i128;
                 // reading agrees with the model at any time
@@ -105,7 +115,7 @@ impl Check for C18 {
                 match op {
                     0 => {
                         // advance the underlying clock
-                        let d = match ch.choose(S_WORK, 5) {
+                        let d = match if profile == 2 { 2 + ch.choose(S_WORK, 2) } else { ch.choose(S_WORK, 5) } {
                             0 => 0u128,
                             1 => ch.range(S_WORK, 1, 1_000_000) as u128 * NS,
                             2 => ch.range(S_WORK, 1, 10_000) as u128 * SEC,
@@ -113,6 +123,8 @@ impl Check for C18 {
                             _ => ch.range(S_WORK, 1, 1000) as u128 * MS + ch.choose(S_WORK, 1 << 32) as u128,
                         };
                         time.now.set(time.now.get() + d);
+                        idle += d;
+                        longest_idle = longest_idle.max(idle);
                         hist.push(format!("advance({:.9}s)", tt_to_secs(d)));
                         let u1 = underlying(&time);
                         let r1 = ov.now() as i128;
@@ -151,6 +163,7 @@ impl Check for C18 {
                             viol.push(("C18.set_frequency_returned_time_is_not_the_reading".into(), String::new(), format!("returned {t}, reading {r1}")));
                         }
                         anchor_u = u;
+                        idle = 0;
                         anchor_r = r1;
                         ppm_k = k;
                     }
@@ -177,6 +190,7 @@ impl Check for C18 {
                             viol.push(("C18.step_returned_time_is_not_the_reading".into(), String::new(), format!("returned {t}, reading {r1}")));
                         }
                         anchor_u = u;
+                        idle = 0;
                         anchor_r = r1;
                     }
                 }
@@ -202,6 +216,12 @@ impl Check for C18 {
         dg.u128(ov.now());
         out.digest = dg.finish();
         out.probe_n("operations", n);
+        if longest_idle > 86_400 * SEC {
+            out.probe("more_than_a_day_between_adjustments");
+        }
+        if longest_idle > 300_000 * SEC {
+            out.probe("more_than_300000s_between_adjustments");
+        }
         if shared {
             out.probe("via_shared_clock");
         }
